@@ -152,22 +152,7 @@ def run(ck):
     # ------------------------------------------------------------------ C08.8
     _save_writes_its_argument(ck)
     # ------------------------------------------------------------------ C08.11 / C08.12
-    ck.clause("C08.12", "the row lists written as _1 / _2 are the lists that were filtered for them: no list is extended or re-ordered "
-                        "in place under another name before it is written")
-    from ..rules.alias import findings as alias_findings
-    coord_fns = [f for f in p.nontest_functions() if f.module.name in ("src.multi_pass_workflow_coordinator", "src.workflow_coordinator")
-                 and not f.is_lambda]
-    n_al = 0
-    for f in coord_fns:
-        for node, text in alias_findings(ctx, f):
-            n_al += 1
-            ck.violation("C08.12", short(f) + ":aliased-list", where(f, node), text + ": the list written under the first name is no "
-                         "longer the list that was filtered for that file", found=ast.unparse(node)[:100],
-                         required="a new list (a + b), or a copy before changing it")
-    ck.floor("C08.12 coordinator functions scanned for in-place changes of aliased lists", len(coord_fns), 10)
-    if not n_al:
-        ck.ok("C08.12", "coordinators", "src/multi_pass_workflow_coordinator.py", f"{len(coord_fns)} functions: no list is changed in "
-              "place under a second name and read again under the first")
+    aliased_lists(ck, "C08.12")
     # argument roles in the multi-pass coordinator (reference / query lists are both List[OpticalMap]: an exchange runs)
     ck.clause("C08.9", "argument roles in the multi-pass coordinator: reference and query arguments are not exchanged")
     from ..rules import role as R
@@ -313,6 +298,28 @@ def _file_naming(ck, rule="C08.2"):
     mode = dict(v[3]).get("mode") or (v[2][1] if len(v[2]) > 1 else None)
     ck.judge(mode == C("w"), rule, "createAdditionalOutputFile:mode", w, "additional file is opened for writing (truncated)",
              found=T.show(mode) if mode else "default 'r'", required="'w'")
+
+
+def aliased_lists(ck, rule):
+    """no coordinator list is extended / re-ordered in place under a second name and then read again under the first"""
+    ctx = ck.ctx
+    p = ctx.p
+    ck.clause(rule, "the row lists written as _1 / _2 are the lists that were filtered for them: no list is extended or re-ordered "
+                        "in place under another name before it is written")
+    from ..rules.alias import findings as alias_findings
+    coord_fns = [f for f in p.nontest_functions() if f.module.name in ("src.multi_pass_workflow_coordinator", "src.workflow_coordinator")
+                 and not f.is_lambda]
+    n_al = 0
+    for f in coord_fns:
+        for node, text in alias_findings(ctx, f):
+            n_al += 1
+            ck.violation(rule, short(f) + ":aliased-list", where(f, node), text + ": the list written under the first name is no "
+                         "longer the list that was filtered for that file", found=ast.unparse(node)[:100],
+                         required="a new list (a + b), or a copy before changing it")
+    ck.floor(f"{rule} coordinator functions scanned for in-place changes of aliased lists", len(coord_fns), 10)
+    if not n_al:
+        ck.ok(rule, "coordinators", "src/multi_pass_workflow_coordinator.py", f"{len(coord_fns)} functions: no list is changed in "
+              "place under a second name and read again under the first")
 
 
 def _aligned_rest(ck, behaviours, execute):
